@@ -99,7 +99,7 @@ PROPS = {
     'C08': {
         'theorems': 'Properties/C08', 'scenarios': ['flow-debt-claim', 'flow-capacity-edge'], 'obligation_files': ['Obligations/ObShape', 'Proofs/Refinement'],
         'profiles': [NODE, SAO, SAOLONG],
-        'projection': ['bank.Supply', 'node.Pool', 'node.Pledge#2', 'node.Pledge#3', 'node.Pledge#4'],
+        'projection': ['bank.Supply', 'node.Pool', 'node.Pledge#2', 'node.Pledge#3', 'node.Pledge#4', 'node.PledgeDebt'],
         'monitors': ['agg.pool_is_sum', 'frame.supply', 'solv.node', 'mint.'], 'families': ['block', 'node', 'sao'],
     },
     'C09': {
